@@ -457,8 +457,16 @@ pub const FIXED: &[(&str, &str)] = &[
     ("json-deep", "fn main()->int{ (\"[\" * 100000 + \"]\" * 100000).json_deserialize().serialize().len() }"),
 ];
 
-/// fixed entries that only the size limit bounds by design (the work is the size of the result)
-pub const SIZE_BOUNDED: &[&str] = &["digits-huge", "dist-hypergeometric-large"];
+/// fixed entries that the size limit bounds by design - the work is the size of a value the program
+/// builds: with the size limit out of reach they end in AllocationLimitReached after seconds of
+/// legitimate work (or, for digits-huge, finish after a long division chain) - and the known finding.
+/// Everything else ends by the search or call budget, by an error or with a value, whatever the size limit.
+pub const SIZE_BOUNDED: &[&str] = &[
+    "digits-huge", "dist-hypergeometric-large",
+    "array-doubling", "dist-normal-huge-sample", "dist-uniform-huge-sample", "format-huge-width", "permutations-to-array", "pow-huge", "pow-tower",
+    "range-huge-sample", "range-huge-shuffle", "range-huge-sort", "range-huge-to-array", "seq-mul-huge-to-array", "sort-huge-native", "string-doubling",
+    "successors-growing",
+];
 
 struct LiveJob {
     scenarios: Vec<Scenario>,
